@@ -873,7 +873,20 @@ func (w *writePrepareFrame) buildFrame(f *framer, streamID int) error {
 	return f.finish()
 }
 
+// maxTypeNesting bounds how deeply a type description that comes from the
+// network (result metadata, schema tables) may nest. Real types nest a few
+// levels; without a bound a frame made of nested collection ids overflows the
+// stack, which no recover can catch.
+const maxTypeNesting = 128
+
 func (f *framer) readTypeInfo() TypeInfo {
+	return f.readNestedTypeInfo(0)
+}
+
+func (f *framer) readNestedTypeInfo(depth int) TypeInfo {
+	if depth > maxTypeNesting {
+		panic(fmt.Errorf("type description nested deeper than %d levels", maxTypeNesting))
+	}
 	// TODO: factor this out so the same code paths can be used to parse custom
 	// types and other types, as much of the logic will be duplicated.
 	id := f.readShort()
@@ -902,7 +915,7 @@ func (f *framer) readTypeInfo() TypeInfo {
 		}
 
 		for i := 0; i < int(n); i++ {
-			tuple.Elems = append(tuple.Elems, f.readTypeInfo())
+			tuple.Elems = append(tuple.Elems, f.readNestedTypeInfo(depth+1))
 		}
 
 		return tuple
@@ -919,7 +932,7 @@ func (f *framer) readTypeInfo() TypeInfo {
 		for i := 0; i < int(n); i++ {
 			var field UDTField
 			field.Name = f.readString()
-			field.Type = f.readTypeInfo()
+			field.Type = f.readNestedTypeInfo(depth + 1)
 			udt.Elements = append(udt.Elements, field)
 		}
 
@@ -930,10 +943,10 @@ func (f *framer) readTypeInfo() TypeInfo {
 		}
 
 		if simple.typ == TypeMap {
-			collection.Key = f.readTypeInfo()
+			collection.Key = f.readNestedTypeInfo(depth + 1)
 		}
 
-		collection.Elem = f.readTypeInfo()
+		collection.Elem = f.readNestedTypeInfo(depth + 1)
 
 		return collection
 	}
